@@ -83,6 +83,11 @@ type Net struct {
 	// function (pion's reuseport.Control sets SO_REUSEADDR + SO_REUSEPORT) may share a local
 	// address with other such sockets, as on Linux. Off by default: every bind is exclusive.
 	ModelReusePort bool
+	// DefaultSeg > 0: every TCP connection created from now on delivers at most this many bytes
+	// per Read in both directions (1 = byte at a time). Coalesce: consecutive writes that are still
+	// unread are merged into one segment, as TCP does with back-to-back writes.
+	DefaultSeg int
+	Coalesce   bool
 	udpExtra       map[string][]*UDPSock
 	lstExtra       map[string][]*Listener
 }
@@ -605,6 +610,7 @@ type half struct {
 	segs    [][]byte
 	eof     bool // writer closed
 	notify  chan struct{}
+	coalesce bool // merge a write into the previous unread segment
 	maxSeg  int   // >0: writes are split into segments of at most maxSeg bytes
 	cuts    []int // explicit absolute cut offsets for the writer (sorted); used before maxSeg
 	written int
@@ -626,8 +632,12 @@ func (h *half) write(p []byte) {
 				n = c - h.written
 			}
 		}
-		// merge with previous segment unless a cut or segment cap separates them
-		h.segs = append(h.segs, rest[:n:n])
+		// merge with the previous unread segment (coalescing) unless the segment cap forbids it
+		if k := len(h.segs); h.coalesce && k > 0 && (h.maxSeg == 0 || len(h.segs[k-1])+n <= h.maxSeg) {
+			h.segs[k-1] = append(append([]byte(nil), h.segs[k-1]...), rest[:n]...)
+		} else {
+			h.segs = append(h.segs, rest[:n:n])
+		}
 		h.written += n
 		rest = rest[n:]
 	}
@@ -1174,6 +1184,8 @@ func (n *Net) DialTCPAddr(laddr, raddr *net.TCPAddr) (*Conn, error) {
 		return nil, errors.New("simnet: dial: connection refused")
 	}
 	a2b, b2a := newHalf(), newHalf()
+	a2b.maxSeg, b2a.maxSeg = n.DefaultSeg, n.DefaultSeg
+	a2b.coalesce, b2a.coalesce = n.Coalesce, n.Coalesce
 	a := &Conn{n: n, local: local, remote: remote, in: b2a, out: a2b, closed: make(chan struct{}), rdlCh: make(chan struct{}), Role: "dialer"}
 	b := &Conn{n: n, local: remote, remote: local, in: a2b, out: b2a, closed: make(chan struct{}), rdlCh: make(chan struct{}), Role: "accepted"}
 	a.peer, b.peer = b, a
